@@ -34,6 +34,27 @@ def _layout_build(gw, rl):
             'entry': 'h_layout', 'dropped': DROPPED_VM, 'min_obligations': n_layout}
 
 
+def _step_all_build(gw, rl):
+    n_layout, ops = vmunit.vm_mirror(gw)
+    name, labels = vmunit.build_step_unit(gw, None, rl)
+    rl.check({})
+    return {'c_sources': [os.path.join(CONTRACTS, 'vm_step.c')], 'cxx_sources': [os.path.join(gw, name)],
+            'entry': 'h_step', 'enforce': ['w_executeSingle/c_step_any'], 'dropped': DROPPED_VM, 'min_obligations': 200,
+            'loops_tpl': os.path.join(CONTRACTS, 'vm_step.loops.json.in')}
+
+
+def _execute_build(gw, rl):
+    n_layout, ops = vmunit.vm_mirror(gw)
+    name = vmunit.build_execute_unit(gw, rl)
+    rl.check({('N7', 'VM::execute'): 1})
+    return {'c_sources': [os.path.join(CONTRACTS, 'vm_step.c')], 'cdefs': ['AS_CALLEE'], 'cxx_sources': [os.path.join(gw, name)],
+            'entry': 'h_execute', 'enforce': ['w_execute/c_execute'], 'replace': ['w_executeSingle/c_step_any'],
+            'dropped': DROPPED_VM, 'min_obligations': 30, 'loops_tpl': os.path.join(CONTRACTS, 'vm_execute.loops.json.in'),
+            # the body of execute is `while (!w_executeSingle(this));`: no memory access or arithmetic of its own, so only the
+            # contract obligations (callee precondition, loop invariant, assigns, postcondition) are generated
+            'cbmc_flags': ['--no-standard-checks', '--unwinding-assertions', '--no-malloc-may-fail']}
+
+
 def groups():
     gs = []
     gs.append(Group('vm_layout', STEP_PROPS + ['C17', 'C07', 'C08', 'C18'], 'class layouts of Theo::VM, Program, Instruction, Activation, BreakPoint, StackMap',
@@ -46,4 +67,10 @@ def groups():
         gs.append(Group(f'step_{op}', props, 'Theo::VM::executeSingle (VM/src/vm.cpp), case OpCode::' + op,
                         f'c_step_{op}', _step_build(op), timeout=900,
                         expect_loops=1 if op == 'PREPARE_EXEC' else 0))
+    gs.append(Group('step_ALL_unsliced', STEP_PROPS + ['C17', 'C18'], 'Theo::VM::executeSingle (VM/src/vm.cpp), unsliced, all 12 cases',
+                    'c_step_any', _step_all_build, timeout=3600, tier='thorough', expect_loops=1,
+                    note='cross-check: the general contract used as callee contract of execute holds on the unsliced body'))
+    gs.append(Group('execute', ['C06', 'C17', 'C05', 'C03', 'C19', 'C20', 'C18'], 'Theo::VM::execute (VM/src/vm.cpp)', 'c_execute', _execute_build,
+                    timeout=1800, expect_loops=1,
+                    note='callee executeSingle replaced by its contract c_step_any'))
     return gs
